@@ -94,7 +94,7 @@ func c09Gen(r *rng.Rand, i int, tier string) interface{} {
 		case 4: // last nanoseconds of a second
 			return (time.Duration(1+r.Intn(int(tf/time.Second)))*time.Second - time.Duration(1+r.Intn(8))) % tf
 		case 5:
-			return tf / 2
+			return (time.Duration(r.Intn(int(tf/time.Second)))*time.Second + 500000000 + time.Duration(r.Intn(1000))) % tf
 		case 6:
 			return time.Duration(r.Intn(1000)) * time.Millisecond % tf
 		}
@@ -115,9 +115,15 @@ func c09Gen(r *rng.Rand, i int, tier string) interface{} {
 		}
 		return r.Bytes(plen)
 	}
+	var prevFocus time.Time
 	for w, nw := 0, 1+r.Intn(4); w < nw; w++ {
 		var ts []time.Time
 		focus := pool[r.Intn(len(pool))]
+		if w > 0 && r.Chance(55) {
+			// a later request to an interval that already holds records (earlier or later ticks, other batch size)
+			focus = prevFocus
+		}
+		prevFocus = focus
 		n := 1 + r.Intn(maxRows)
 		if wide && w < 2 && r.Chance(70) {
 			n = 10 + r.Intn(22)
@@ -418,7 +424,7 @@ func init() {
 		CoqCaseType: "C09.case",
 		Rule: "write histories for one variable-length bucket on a real temp instance: 11 timeframes, 1-3 years from {1970..2037}, 1-4 " +
 			"WriteCSM requests of 1-8 rows (1-30 thorough; 10-31 rows of wide repetitive payload in 14% of the cases), many records per " +
-			"interval, interval/year edges, Feb 29, whole seconds + a few ns, last ns of a second, sorted / shuffled / cross-year input; " +
+			"interval, interval/year edges, Feb 29, whole seconds + a few ns, last ns of a second, sorted / shuffled / cross-year input, 55% of the later requests hit the previous request's interval again; " +
 			"then the raw file state and the query over all time; distinct = distinct input JSON; non-trivial = inside the guard with >= 2 rows",
 		Gen: c09Gen,
 		Run: c09Run,
